@@ -1067,6 +1067,10 @@ impl IovecFamily {
                 g.new_iov();
                 continue;
             };
+            if g.rng.chance(1, 100) {
+                g.ops.push("dbg".into());
+                continue;
+            }
             // Clone::clone_from between two live iovecs (fam_iovec/traits.rs)
             if g.rng.chance(3, 100) {
                 let others: Vec<usize> = (0..g.iov_alive.len()).filter(|i| g.iov_alive[*i] && *i != v).collect();
